@@ -8,8 +8,7 @@ if ! git diff --quiet; then echo "repo dirty, abort"; exit 2; fi
 git apply $dir/patch.diff || { echo "patch does not apply"; exit 2; }
 first=1
 for p in $props; do
-  if [ $first = 1 ]; then out=$(/verif/check $p --tier $tier 2>&1); first=0; else out=$(/verif/check $p --tier $tier --no-build 2>&1); fi
-  rc=$?
+  if [ $first = 1 ]; then out=$(/verif/check $p --tier $tier 2>&1); rc=$?; first=0; else out=$(/verif/check $p --tier $tier --no-build 2>&1); rc=$?; fi
   nv=$(echo "$out" | grep -c "^VIOLATION")
   echo "SEEDED $tag $p tier=$tier rc=$rc violations=$nv $(echo "$out" | grep -E "^\[$p\]" | cut -c1-140)"
   echo "$out" | grep -E "^VIOLATION|signature:" | head -6 | cut -c1-220
